@@ -73,6 +73,8 @@ def errStr : Err → String
   | .rootexists => "rootexists"
   | .isdir => "isdir"
   | .intoself => "intoself"
+  | .busy => "busy"
+  | .nofd => "nofd"
 
 def sortStrs (xs : List String) : List String := xs.mergeSort fun a b => !(b < a)
 
@@ -90,47 +92,65 @@ def outStr : Out → String
       | none => e.1 ++ "/"
       | some sz => s!"{e.1}:{sz}")) ++ "]"
 
-def parseOp (ts : List String) : Option Op :=
+def parseOp (ts : List String) : Option OpD :=
   match ts with
   | ["mkdir", p, parents, flush, mode, mt] =>
-    some (.mkdir (parsePath p).comps (parents == "1") (flush == "1") ⟨parseOct mode, mt.toNat!⟩)
-  | ["put", p, k] => some (.put (parsePath p) (pool k.toNat!))
-  | ["mv", s, d] => some (.mv (parsePath s) (parsePath d))
-  | ["rm", p] => some (.rm (parsePath p))
-  | ["chmod", p, mode] => some (.chmod (parsePath p).comps (parseOct mode))
-  | ["touch", p, mt] => some (.touch (parsePath p).comps mt.toNat!)
-  | ["write", p, off, b, mode] => some (.write (parsePath p).comps off.toNat! (unhex b) (mode != "0"))
-  | ["trunc", p, size, mode] => some (.trunc (parsePath p).comps size.toNat! (mode != "0"))
-  | ["read", p] => some (.read (parsePath p).comps)
-  | ["flush", p] => some (.flush (parsePath p).comps)
-  | ["stat", p] => some (.stat (parsePath p).comps)
-  | ["ls", p] => some (.ls (parsePath p).comps)
-  | ["lsl", p] => some (.lsl (parsePath p).comps)
+    some (.base (.mkdir (parsePath p).comps (parents == "1") (flush == "1") ⟨parseOct mode, mt.toNat!⟩))
+  | ["put", p, k] => some (.base (.put (parsePath p) (pool k.toNat!)))
+  | ["mv", s, d] => some (.base (.mv (parsePath s) (parsePath d)))
+  | ["rm", p] => some (.base (.rm (parsePath p)))
+  | ["chmod", p, mode] => some (.base (.chmod (parsePath p).comps (parseOct mode)))
+  | ["touch", p, mt] => some (.base (.touch (parsePath p).comps mt.toNat!))
+  | ["write", p, off, b, mode] => some (.base (.write (parsePath p).comps off.toNat! (unhex b) (mode != "0")))
+  | ["trunc", p, size, mode] => some (.base (.trunc (parsePath p).comps size.toNat! (mode != "0")))
+  | ["read", p] => some (.base (.read (parsePath p).comps))
+  | ["flush", p] => some (.base (.flush (parsePath p).comps))
+  | ["stat", p] => some (.base (.stat (parsePath p).comps))
+  | ["ls", p] => some (.base (.ls (parsePath p).comps))
+  | ["lsl", p] => some (.base (.lsl (parsePath p).comps))
+  | ["dmkdir", p, k] => some (.base (.dmkdir (parsePath p).comps k))
+  | ["rflush"] => some (.base .rflush)
+  | ["memfree"] => some (.base .memfree)
+  | ["reopen"] => some (.base .reopen)
+  | ["fdopen", p, sync] => some (.fdopen (parsePath p).comps (sync == "1"))
+  | ["fdwrite", off, b] => some (.fdwrite off.toNat! (unhex b))
+  | ["fdtrunc", size] => some (.fdtrunc size.toNat!)
+  | ["fdflush"] => some .fdflush
+  | ["fdclose"] => some .fdclose
   | _ => none
 
-def stepLine (s : Option St) (line : String) : Option St × String :=
+def fdStr : Option Fd → String
+  | none => "-"
+  | some fd => (if fd.att then "a:/" else "d:/") ++ "/".intercalate fd.path ++ s!":{fd.buf.length}"
+
+/-- driver state: the MFS, and whether the root has a publisher (`cfg _ _ 1` = created without PubFunc) -/
+structure DSt where
+  s : StD
+  nopub : Bool
+
+def stepLine (s : Option DSt) (line : String) : Option DSt × String :=
   let ts := (line.trimAscii.toString.splitOn " ").filter (· ≠ "")
   match ts with
   | ["case", n] => (none, s!"case {n}")
   | ["end"] => (none, "end")
-  | ["cfg", _, _] =>
+  | ["cfg", _, _, np] =>
     match s with
-    | none => (some St.init, "ok | " ++ serL St.init.root)
+    | none => (some ⟨⟨St.init, none⟩, np == "1"⟩, "ok | " ++ serL St.init.root ++ " | fd=-")
     | some _ => (s, "bad-op")
   | _ =>
     match s, parseOp ts with
     | some st, some op =>
-      let r := step false st op
+      let r := stepD st.s op
       let res := match r.2 with
         | .ok o => outStr o
         | .error e => errStr e
       let extra := match op, r.2 with
-        | .flush _, .ok _ => " | pub=" ++ serN r.1.pub
+        | .base (.flush _), .ok _ => if st.nopub then "" else " | pub=" ++ serN r.1.st.pub
         | _, _ => ""
-      (some r.1, res ++ " | " ++ serL r.1.root ++ extra)
+      (some ⟨r.1, st.nopub⟩, res ++ " | " ++ serL r.1.st.root ++ extra ++ " | fd=" ++ fdStr r.1.fd)
     | _, _ => (s, "bad-op")
 
-partial def loop (h : IO.FS.Stream) (out : IO.FS.Stream) (s : Option St) : IO Unit := do
+partial def loop (h : IO.FS.Stream) (out : IO.FS.Stream) (s : Option DSt) : IO Unit := do
   let line ← h.getLine
   if line.isEmpty then return ()
   let (s', o) := stepLine s line
